@@ -12,7 +12,7 @@ import numpy as np
 from .base_classes import Shape2D
 from .convex_polygon import ConvexPolygon, _is_convex
 from .polygon import _align_points_by_normal
-from .utils import _hoomd_dict_mapping, _map_dict_keys, _validate_scale
+from .utils import _hoomd_dict_mapping, _map_dict_keys, _own_scalar, _validate_scale
 
 
 class ConvexSpheropolygon(Shape2D):
@@ -94,7 +94,7 @@ class ConvexSpheropolygon(Shape2D):
     @radius.setter
     def radius(self, value):
         if value >= 0:
-            self._radius = value
+            self._radius = _own_scalar(value)
         else:
             raise ValueError("Radius must be greater than or equal to zero.")
 
